@@ -709,6 +709,12 @@ loop:
 				deleteUntil--
 			}
 
+			// The streams that have just timed out may have been the last ones
+			// a GOAWAY was waiting for.
+			if isClosing() && canCloseAfterGoAway() {
+				break loop
+			}
+
 			if len(strms) != 0 && sc.maxRequestTime > 0 {
 				// the first in the stream list might have started with a PushPromise
 				strm := strms.GetFirstOf(FrameHeaders)
@@ -762,6 +768,13 @@ loop:
 					}
 
 					sc.flushStreams(strms, closeStream)
+				}
+
+				// The window that has just opened may have let the last response
+				// a GOAWAY was waiting for go out: nothing else will come by to
+				// notice that the connection can end now.
+				if isClosing() && canCloseAfterGoAway() {
+					break loop
 				}
 
 				continue
